@@ -1,4 +1,4 @@
-import VermouthModel.C09
+import VermouthModel.C09_Pipeline
 open Proto C09
 
 /-
@@ -11,9 +11,15 @@ requests
     atom        [ key pos [ [ xname rat ]* ] ]   pos: - | [ c c c ]   c: - (not finite) | rat
   hist <selfWeight> <ignoreMissing> [ [ ffVar [ bead* ] ]* ]    one DoAverageBead object, several molecules
     rat         [ num den ]
+  sys  <selfWeight> <ignoreMissing> [ [ ffVar [ bead* ] ]* ]    one DoAverageBead.run_system over the molecules
+  avgq <qexp> <entry> <selfWeight> <ffVar> <ignoreMissing> [ bead* ]   as avg, results in units of 2^-qexp
+  pipe <selfWeight> <ffVar> <ignoreMissing> <qexp> [ atom* ] maps raw mods rawMods
+    DoMapping then DoAverageBead: atom* = the INPUT molecule (key, position, numeric attributes) in node
+    order; maps raw mods rawMods exactly as in driver_c01 `mapmod` (mapping definitions and raw matches)
 responses
   keyerror | valueerror | ok [ res* ]    res: - (untouched) | [ ] (NaN) | [ qx qy qz ] (units of 2^-30)
-  hist: the outcomes joined by " | "
+  hist, sys: the outcomes joined by " | "
+  pipe: maperror <status> | keyerror | valueerror | ok [ [ key res ]* ]
 -/
 
 def ratOf (t : Tok) : Option Rat := do
@@ -73,6 +79,92 @@ def encOutcome : Outcome Rat → String
   | .valueError => "valueerror"
   | .ok l => "ok " ++ encList (l.map encRes)
 
+
+/-! ### mapping definitions and raw matches (same encoding as Drivers/C01.lean, `mapmod`) -/
+
+def pairOf (t : Tok) : Option (Int × Int) := do
+  match ← t.list? with
+  | [a, b] => pure (← a.int?, ← b.int?)
+  | _ => none
+
+def pairsOfTok (t : Tok) : Option (List (Int × Int)) := do (← t.list?).mapM pairOf
+
+def bnodeOf (t : Tok) : Option (Int × C12.Attrs) := do
+  match ← t.list? with
+  | [k, n, r, c] => pure (← k.int?, { name := ← n.optStr?, resid := ← r.optInt?, cg := ← c.optInt? })
+  | _ => none
+
+def interOf (t : Tok) : Option (String × C12.Inter) := do
+  match ← t.list? with
+  | [ty, ats, pr, v] => pure (← ty.str?, { atoms := ← ints? ats, params := ← pr.str?, version := ← v.int? })
+  | _ => none
+
+def ratND (n d : Tok) : Option Rat := do
+  let n ← n.int?
+  let d ← d.nat?
+  if d = 0 then none else pure (mkRat n d)
+
+def weightsOf (t : Tok) : Option C01.Dict2 := do
+  (← t.list?).mapM (fun row => do
+    match ← row.list? with
+    | [f, ws] =>
+      let ws ← (← ws.list?).mapM (fun w => do
+        match ← w.list? with
+        | [b, n, d] => pure (← b.int?, ← ratND n d)
+        | _ => none)
+      pure (← f.int?, ws)
+    | _ => none)
+
+def mapSpecOf (t : Tok) : Option C01.MapSpec := do
+  match ← t.list? with
+  | [nodes, edges, inters, nrexcl, weights, refs] =>
+    let ns ← (← nodes.list?).mapM bnodeOf
+    let es ← pairsOfTok edges
+    let is ← (← inters.list?).mapM interOf
+    pure { blockTo := { nodes := ns, edges := es, inters := is, nrexcl := ← nrexcl.optInt? },
+           weights := ← weightsOf weights, refs := ← pairsOfTok refs }
+  | _ => none
+
+def modNodeOf (t : Tok) : Option C01.ModNode := do
+  match ← t.list? with
+  | [k, n, r, c, isNew] => pure { key := ← k.int?, attrs := { name := ← n.optStr?, resid := ← r.optInt?, cg := ← c.optInt? },
+                                   isNew := (← isNew.int?) != 0 }
+  | _ => none
+
+def modSpecOf (t : Tok) : Option C01.ModSpec := do
+  match ← t.list? with
+  | [nodes, edges, inters, weights, refs] =>
+    pure { nodes := ← (← nodes.list?).mapM modNodeOf, edges := ← pairsOfTok edges,
+           inters := ← (← inters.list?).mapM interOf, weights := ← weightsOf weights, refs := ← pairsOfTok refs }
+  | _ => none
+
+def rawOfTok (t : Tok) : Option (Nat × List (Int × Int)) := do
+  match ← t.list? with
+  | [i, m] => pure (← i.nat?, ← pairsOfTok m)
+  | _ => none
+
+def encResAt (e : Int) : Option (Option (V3 Rat)) → String
+  | none => "-"
+  | some none => "[ ]"
+  | some (some p) => encList [encInt (quantAt e p.x), encInt (quantAt e p.y), encInt (quantAt e p.z)]
+
+def encOutcomeAt (e : Int) : Outcome Rat → String
+  | .keyError => "keyerror"
+  | .valueError => "valueerror"
+  | .ok l => "ok " ++ encList (l.map (encResAt e))
+
+def encPipe (e : Int) : PipeOutcome → String
+  | .mapError x => "maperror " ++ x.str
+  | .averaged _ .keyError => "keyerror"
+  | .averaged _ .valueError => "valueerror"
+  | .averaged keys (.ok l) => "ok " ++ encList ((keys.zip l).map (fun kr => encList [encInt kr.1, encResAt e kr.2]))
+
+def selfOf : Tok → Option WeightArg
+  | Tok.none => some WeightArg.unset
+  | Tok.int 0 => some WeightArg.off
+  | Tok.str n => some (WeightArg.attr n)
+  | _ => none
+
 def handle (_ : Unit) (toks : List Tok) : Unit × String :=
   let r : Option String :=
     match toks with
@@ -103,6 +195,36 @@ def handle (_ : Unit) (toks : List Tok) : Unit × String :=
           | [ffv, beads] => pure (← ffv.optStr?, ← (← beads.list?).mapM beadOf)
           | _ => none
         pure (" | ".intercalate ((runHistoryQ ⟨ignore, self⟩ ops).map encOutcome))
+    | [Tok.str "sys", selfW, ign, steps] => do
+        let ignore := (← ign.nat?) != 0
+        let self ← selfOf selfW
+        let ops ← (← steps.list?).mapM fun st => do
+          match ← st.list? with
+          | [ffv, beads] => pure (← ffv.optStr?, ← (← beads.list?).mapM beadOf)
+          | _ => none
+        pure (" | ".intercalate ((runSystemQ ⟨ignore, self⟩ ops).map encOutcome))
+    | [Tok.str "avgq", qexp, entry, selfW, ffv, ign, beads] => do
+        let qe ← qexp.int?
+        let e ← entry.nat?
+        let ffVar ← ffv.optStr?
+        let ignore := (← ign.nat?) != 0
+        let mol ← (← beads.list?).mapM beadOf
+        if e = 0 then
+          let w ← selfW.optStr?
+          pure (encOutcomeAt qe (doAverageBeadQ mol ignore w))
+        else
+          pure (encOutcomeAt qe (runMoleculeQ (← selfOf selfW) ffVar ignore mol))
+    | [Tok.str "pipe", selfW, ffv, ign, qexp, atoms, maps, raw, mods, rawMods] => do
+        let self ← selfOf selfW
+        let ffVar ← ffv.optStr?
+        let ignore := (← ign.nat?) != 0
+        let qe ← qexp.int?
+        let geom ← (← atoms.list?).mapM atomOf
+        let ms ← (← maps.list?).mapM mapSpecOf
+        let rw ← (← raw.list?).mapM rawOfTok
+        let md ← (← mods.list?).mapM modSpecOf
+        let rm ← (← rawMods.list?).mapM rawOfTok
+        pure (encPipe qe (pipelineAll geom self ffVar ignore ms rw md rm))
     | _ => none
   ((), r.getD "bad-op")
 
